@@ -659,9 +659,17 @@ func (x *XRefParser) ParseAllXRefs() ([]*XRefTable, error) {
 
 	tables := []*XRefTable{mainTable}
 
-	// Parse previous XRefs
+	// Parse previous XRefs. Remember the offsets already followed: a /Prev
+	// chain that loops back would otherwise be followed forever.
+	seenPrev := make(map[int64]bool)
 	currentTable := mainTable
 	for {
+		if prev, ok := currentTable.Trailer.Get("Prev").(Int); ok {
+			if seenPrev[int64(prev)] {
+				return nil, fmt.Errorf("cycle in /Prev chain at offset %d", int64(prev))
+			}
+			seenPrev[int64(prev)] = true
+		}
 		prevTable, err := x.ParsePrevXRef(currentTable)
 		if err != nil {
 			return nil, fmt.Errorf("failed to parse prev xref: %w", err)
